@@ -5,8 +5,8 @@ from models import poly, selfcheck
 
 PROPERTY_ID = "C05"
 RULE = ("programs new(key); input(chunk)*; raw_result|result: keys = r in {0,1,2,unclamped all-ones,max clamped,2 patterns} x s in {0,all-ones,pattern}; "
-        "messages = every length 0..=80 x content patterns, RFC 8439 A.3 wrap-around inputs, crafted r=1 three-block messages whose accumulator lands on "
-        "p-2..p+4; chunkings = one call, every 2-split (every cut point), every 3-split for lengths <= 34 (thorough), every sequence of <= 3 chunks over "
+        "messages = every length 0..=80 (thorough 0..=160) x content patterns, RFC 8439 A.3 wrap-around inputs, crafted r=1 three-block messages whose accumulator lands on "
+        "p-2..p+4; chunkings = one call, every 2-split (every cut point), every 3-split for lengths <= 50 (thorough), every sequence of <= 3 chunks over "
         "{0,1,15,16,17,33}; oracle = big-integer definition of RFC 8439 2.5; non-trivial = non-empty message; distinct = program text")
 ASSUMPTIONS = ["the 6-line big-integer Poly1305 of RFC 8439 2.5.1 (validated on 2.5.2 and A.3 #5-#11)", "message content from the pattern alphabet plus crafted wrap-around blocks"]
 
@@ -18,8 +18,8 @@ def builds_needed(tier):
 
 
 def bounds(tier):
-    return {"lengths": "0..=80", "keys": 21 if tier == "thorough" else 8, "two_splits": "all cut points",
-            "three_splits": "all for len<=34 (3 keys)" if tier == "thorough" else "none", "tree_depth": 3}
+    return {"lengths": "0..=160" if tier == "thorough" else "0..=80", "keys": 42 if tier == "thorough" else 8, "two_splits": "all cut points",
+            "three_splits": "all for len<=50 (3 keys)" if tier == "thorough" else "none", "tree_depth": 3}
 
 
 def validate_models(tier):
@@ -29,6 +29,10 @@ def validate_models(tier):
 def keys(tier):
     rs = [bytes(16), (1).to_bytes(16, "little"), (2).to_bytes(16, "little"), b"\xff" * 16,
           (0x0ffffffc0ffffffc0ffffffc0fffffff).to_bytes(16, "little"), pat(5, 0, 16), pat(6, 0, 16)]
+    if tier == "thorough":
+        # r with single 26-bit limbs saturated, and r = 4 (the A.3 #10/#11 key shape)
+        rs += [(0x3ffffff << sh & 0x0ffffffc0ffffffc0ffffffc0fffffff).to_bytes(16, "little") for sh in (0, 26, 52, 78, 104)]
+        rs += [bytes.fromhex("01000000000000000400000000000000"), pat(7, 5, 16)]
     ss = [bytes(16), b"\xff" * 16, pat(7, 0, 16)]
     out = [r + s for r in rs for s in ss]
     if tier != "thorough":
@@ -79,7 +83,7 @@ def shard_key(i, tier):
     cases = []
     pats = (5, 1, 2) if tier == "thorough" else (5, 1)
     for k in pats:
-        for n in range(0, 81):
+        for n in range(0, (161 if tier == "thorough" else 81)):
             msg = pat(k, 3, n)
             tag = obs_of(poly.poly1305(key, msg))
             cases.append((prog(karg, [P(k, 3, n)], "mraw s0"), ["-", "-", tag], None))
@@ -127,7 +131,7 @@ def shard_three(i, tier):
     key = keys(tier)[i]
     karg = H(key)
     cases = []
-    for n in range(0, 35):
+    for n in range(0, 51):
         tag = obs_of(poly.poly1305(key, pat(5, 3, n)))
         for c1 in range(0, n + 1):
             for c2 in range(c1, n + 1):
